@@ -117,7 +117,7 @@ func runC09Disc(o *opts) (*summary, error) {
 	}
 	// discoveries that overlap on an EPHEMERAL bind port (explicit address, port 0) have nothing to queue for: each of them
 	// returns after T, not after k x T
-	{
+	for attempt := 0; attempt < 4; attempt++ {
 		ue := uhppote.NewUHPPOTE(bind, types.BroadcastAddr{AddrPort: udpAddrPort(bc)}, types.ListenAddr{}, timeout, nil, false)
 		g0, f0 := settle()
 		jm := startJitterMonitor()
@@ -147,9 +147,14 @@ func runC09Disc(o *opts) (*summary, error) {
 		jm.stop()
 		time.Sleep(2 * timeout)
 		g1, f1 := settle()
-		w.put(M{"op": "Quiesce", "what": "overlapped-discovery-ephemeral-port", "disturbed": jm.max() > int64(timeout/time.Microsecond)*15/100, "jitter_us": jm.max(), "calls": 9,
+		disturbed := jm.max() > int64(timeout/time.Microsecond)*15/100
+		if disturbed && attempt < 3 {
+			continue // the harness' own clockwork was disturbed: this run says nothing about elapsed times - again
+		}
+		w.put(M{"op": "Quiesce", "what": "overlapped-discovery-ephemeral-port", "disturbed": disturbed, "jitter_us": jm.max(), "calls": 9,
 			"goroutines_before": g0, "goroutines_after": g1, "fds_before": f0, "fds_after": f1,
 			"elapsed_max_ms": int(maxEl / time.Millisecond), "elapsed_min_ms": int(minEl / time.Millisecond), "T_ms": int(timeout / time.Millisecond)}, "quiesce", "overlap-eph")
+		break
 	}
 	// a discovery that cannot bind its fixed port fails - and the next one, once the port is free, runs as if nothing had happened
 	{
@@ -383,6 +388,18 @@ func runC11(o *opts) (*summary, error) {
 	for _, n := range []int{0, 1, 63, 65, 128, 1024, 2048, 4096} {
 		fixedSeqs = append(fixedSeqs, []string{"valid1", fmt.Sprintf("badlen%d", n), "valid2"})
 	}
+	// ... and crowded windows: 90 datagrams that are not replies ahead of three that are, and a large installation
+	// (120 controllers answer): "never ... hide the valid replies around them", however many there are
+	crowd := []string{"valid1"}
+	for k := 0; k < 90; k++ {
+		crowd = append(crowd, []string{"badlen17", "badcode", "badproto", "badlen65"}[k%4])
+	}
+	crowd = append(crowd, "valid2", "valid2")
+	many := []string{}
+	for k := 0; k < 120; k++ {
+		many = append(many, "valid2")
+	}
+	fixedSeqs = append(fixedSeqs, crowd, many)
 	nL += len(fixedSeqs)
 	for i := 0; i < nL; i++ {
 		seq := []string{}
@@ -563,8 +580,15 @@ func discoveryScenario(i int, seq []string, seed int64, lt *layoutTables, T int,
 				if len(dgs) > 0 {
 					gap = time.Duration(float64(T) * float64(tick) * 0.6 / float64(len(dgs)))
 				}
-				for _, b := range dgs {
-					time.Sleep(gap)
+				// (sleeps shorter than 2 ms are not worth their name: a crowded window is sent in small bursts)
+				every := 1
+				if gap < 2*time.Millisecond && gap > 0 {
+					every = int(2*time.Millisecond/gap) + 1
+				}
+				for k, b := range dgs {
+					if k%every == 0 {
+						time.Sleep(gap * time.Duration(every))
+					}
 					bc.WriteToUDP(b, src)
 				}
 			}
